@@ -292,6 +292,10 @@ def normalize_url(
         port = None
 
     # Normalizing the path
+    # NOTE: the path is unescaped first so that dot segments, index files etc.
+    # are found however they were escaped
+    path = safely_unquote_path(path)
+
     if path:
         trailing_slash = False
         if path.endswith("/") and len(path) > 1:
